@@ -174,8 +174,8 @@ Proof.
   { subst s0. cbn [s_data s_conf s_index s_term]. rewrite <- PP, <- PF, <- PA, <- PL.
     split; [reflexivity|]. split; [symmetry; exact PC|]. split; [exact HI|]. exists e. auto. }
   clearbody s0.
-  destruct (e_index e <=? n_lii (close_snapshot n0 s0)).
-  - intros H. apply HX in H. destruct H as [H| ->]; [auto|right; exact HS0].
+  destruct (e_index e <=? n_lii n0).
+  - rewrite PS. auto.
   - intros H. unfold reset_snapshot_files in H. cbn [n_snaps set] in H.
     rewrite compact_log_snaps in H. cbn [n_snaps set] in H.
     apply HX in H. destruct H as [H| ->]; [auto|right; exact HS0].
